@@ -60,11 +60,32 @@ struct Ev {
     kind: u8, // 1 message, 2 wake-up without data, 3 disconnect / finished
 }
 
-/// a script: offsets chosen around the interesting instants of a call with timeout d (deadline d, armed timer a)
+/// a script: offsets chosen around the interesting instants of a call with timeout d (deadline d, armed timer a);
+/// one case in three is a classic pattern: wake-ups without data (kind 2, where the API has them) before the deadline and
+/// between the deadline and the end of the re-armed park - they tell the code, the textbook loop and the slip
+/// "deadline recomputed in the loop" apart
 fn script(c: &Ctx, d: u64, a: u64, max_ev: u64, kinds: &[u8]) -> Vec<Ev> {
+    let (d_, a_) = (d as i64, a as i64);
+    if kinds.contains(&2) && d >= 400_000 && c.rand() % 3 == 0 {
+        let other = *kinds.iter().find(|k| **k != 2).unwrap_or(&2);
+        let pats: [Vec<Ev>; 6] = [
+            vec![Ev { off: d_ / 2, kind: 2 }, Ev { off: d_ + d_ / 4, kind: 2 }],
+            vec![Ev { off: d_ / 2, kind: 2 }],
+            vec![Ev { off: d_ / 2, kind: 2 }, Ev { off: d_ + d_ / 4, kind: 2 }, Ev { off: d_ / 2 + a_ + 1, kind: other }],
+            vec![Ev { off: d_ / 4, kind: 2 }, Ev { off: d_ / 2, kind: 2 }, Ev { off: d_ + d_ / 8, kind: 2 }],
+            vec![Ev { off: d_ - 1, kind: 2 }, Ev { off: d_, kind: other }],
+            vec![Ev { off: d_ / 2, kind: 2 }, Ev { off: d_ / 2 + a_ - 1, kind: other }],
+        ];
+        let mut v = pats[(c.rand() % 6) as usize].clone();
+        v.truncate(max_ev.max(1) as usize);
+        if let Some(p) = v.iter().position(|e| e.kind == 3) {
+            v.truncate(p + 1);
+        }
+        return v;
+    }
     let n = c.rand() % (max_ev + 1);
     let mut v = vec![];
-    let marks = [d as i64, a as i64, (d / 2) as i64, (a + d) as i64, (a + a) as i64, 0];
+    let marks = [d_, a_, d_ / 2, a_ + d_, a_ + a_, 0, d_ + d_ / 4];
     for _ in 0..n {
         let m = marks[(c.rand() % marks.len() as u64) as usize];
         let delta = [0i64, 0, -1, 1, -300_000, 300_000, -700_000, 1_200_000][(c.rand() % 8) as usize];
@@ -172,6 +193,10 @@ fn main() {
                     let (tx, rx) = may::sync::mpsc::channel::<u32>();
                     let mut evs = script(ctx, d, a, 3, if stalled { &[1, 1, 9] } else { &[1, 1, 1, 3] });
                     // kind 9 (mpscw only): a message sent BEFORE the call, consumed before the call; its wake-up comes later
+                    if stalled && d >= 400_000 && ((d + d / 4) as u64) < stall_x && ctx.rand() % 2 == 0 {
+                        // classic pattern: wake-ups without data at d/2 and at d + d/4
+                        evs = vec![Ev { off: (d / 2) as i64 - stall_x as i64, kind: 8 }, Ev { off: (d + d / 4) as i64 - stall_x as i64, kind: 8 }];
+                    }
                     for e in evs.iter_mut() {
                         if e.kind == 9 {
                             e.off = -((ctx.rand() % 1_200_000) as i64) - 1;
@@ -187,7 +212,7 @@ fn main() {
                     for e in &evs {
                         let t = (tc as i64 + e.off) as u64;
                         match e.kind {
-                            1 | 9 => {
+                            1 | 8 | 9 => {
                                 let txc = txo.as_ref().unwrap().clone();
                                 hs.push(ctx.spawn("snd", move || {
                                     wait_until(t);
@@ -213,7 +238,7 @@ fn main() {
                         }
                     }
                     model_evs.sort();
-                    let drain = evs.iter().any(|e| e.kind == 9);
+                    let drain = evs.iter().any(|e| e.kind == 9 || e.kind == 8);
                     in_ctx(ctx, in_co, move || {
                         let c = mayv::ctx();
                         wait_until(tc);
